@@ -22,25 +22,25 @@ func init() {
 
 	register(&core.Rule{ID: "C18.1", Prop: "C18", MinSites: 3,
 		Desc: "Polling returns only on the non-EINTR error edge of the wait syscall or on errors.Is(err, ErrAcceptSocket|ErrEngineShutdown)",
-		Run: runC18_1})
+		Run:  runC18_1})
 	register(&core.Rule{ID: "C18.2", Prop: "C18", MinSites: 8,
 		Desc: "sentinel provenance: ErrAcceptSocket is produced only by accept0/accept on a non-transient Accept error; ErrEngineShutdown only on Action==Shutdown edges and by the exit-task closures of stop/Stop/ticker",
-		Run: runC18_2})
+		Run:  runC18_2})
 	register(&core.Rule{ID: "C18.3", Prop: "C18", MinSites: 6,
 		Desc: "conn-scoped failure ⇒ close: a loop-side function that owns a conn never returns the raw error of a syscall/poll-registration call on that conn unless the conn was closed on that path (el.close, registration-failure close, or deferred closer on the named error)",
-		Run: runC18_3})
+		Run:  runC18_3})
 	register(&core.Rule{ID: "C18.4", Prop: "C18", MinSites: 7,
 		Desc: "transient tables: EINTR/ECONNRESET/ECONNABORTED/EAGAIN on accept, EAGAIN on read/write and EINTR on the wait lead to continue/return nil without closing or failing anything",
-		Run: runC18_4})
+		Run:  runC18_4})
 	register(&core.Rule{ID: "C18.7", Prop: "C18", MinSites: 4,
 		Desc: "edge-triggered acceptors drain: a listener callback registered with edgeTriggered=true returns nil only on the EAGAIN edge, and its transient errnos (EINTR, ECONNRESET, ECONNABORTED) lead back to the accept loop",
-		Run: runC18_7})
+		Run:  runC18_7})
 	register(&core.Rule{ID: "C18.5", Prop: "C18", MinSites: 1,
 		Desc: "registration failure: when adding the conn to the poller fails, register0 closes the descriptor and releases the conn before returning, without any handler callback",
-		Run: runC18_5})
+		Run:  runC18_5})
 	register(&core.Rule{ID: "C18.6", Prop: "C18", MinSites: 5,
 		Desc: "explicit panics/fatal exits in non-test module code are exactly the documented contract checks (reader/writer count violations, CeilToPowerOfTwo overflow, kqueue wake-pipe creation)",
-		Run: runC18_6})
+		Run:  runC18_6})
 }
 
 func sentinel(c *core.Ctx, name string) types.Object { return c.P.Object("pkg/errors", name) }
